@@ -60,6 +60,7 @@ func c03Cases() []c03Case {
 				out = append(out, c03Case{ver, "c", "cert", key, verify, true, 0, "none"})
 				if ver == 13 && key == "ecdsa" {
 					out = append(out, c03Case{ver, "c", "cert", key, verify, false, 0, "no-server-auth"})
+					out = append(out, c03Case{ver, "c", "cert", key, verify, false, 0, "cert-without-verify"})
 				}
 			}
 			for policy := 0; policy <= 4; policy++ {
@@ -169,7 +170,7 @@ func c03MustFail(p *C03Params) bool {
 		return true
 	}
 	sigLevel := p.Dev == "other-key" || p.Dev == "sig-flip" || p.Dev == "sig-other-digest" || p.Dev == "scheme-confusion"
-	if p.Dev == "no-server-auth" {
+	if p.Dev == "no-server-auth" || p.Dev == "cert-without-verify" {
 		// the server sends neither Certificate nor CertificateVerify: nothing binds it to any identity
 		return true
 	}
@@ -403,9 +404,13 @@ func c03Run(rc *RunCtx, params any) {
 			return nil
 		}
 	}
-	if p.Dev == "no-server-auth" {
+	if p.Dev == "no-server-auth" || p.Dev == "cert-without-verify" {
 		// Byzantine server scripted on refdtls; the real server of the pair never hears from the client
 		rogue13 := NewRogue13(s, n, pair.SAddr, pair.CAddr)
+		if p.Dev == "cert-without-verify" {
+			// the victim's genuine, publicly known chain - and no proof of possession
+			rogue13.Chain = certPool.Leaf[leafName("srv", p.KeyKind)].Certificate
+		}
 		n.Rewrite = func(em *Emission) []byte {
 			if em.Ep == "c" {
 				rogue13.OnClientDatagram(em)
@@ -425,7 +430,7 @@ func c03Run(rc *RunCtx, params any) {
 		s.Probe("must-fail:" + p.Dev)
 		if pair.CHs.Done && pair.CHs.Err == nil {
 			rc.Violate(fmt.Sprintf("established-without-credential:v%d:%s:%s", p.Ver, p.Honest, p.Dev),
-				"the honest client (verify=%v) reported a successful handshake with a server that sent no Certificate and no CertificateVerify", p.Verify)
+				"the honest client (verify=%v) reported a successful handshake with a scripted server that proved nothing (%s)", p.Verify, p.Dev)
 		}
 
 		return
